@@ -46,6 +46,11 @@ def c20(ctx):
              "constant ending in \\n that reaches the result from the function's own body, not from the per-suggestion closure): a "
              "diagnostic without suggestions still ends its line")
     render_rule(ctx, "C20.R4")
+    rep.rule("C20.R5", "hand-through: the text the library parses is what read_to_string returned -- on the way from load_and_run_from_command_line "
+             "to the sub-command nothing but borrowing is applied to it (no replace / trim / to_lowercase ..); the diagnostics printed are the "
+             "library's -- no code under src/cli mutates LinterResult.diags, and the chain from diags to the printed segments only maps and "
+             "flattens (no filter / dedup / skip / take / rev)")
+    hand_through_rule(ctx, "C20.R5")
     # ---- R1
     want_chain = {
         "cli::exec::run": {"cli::parser::parse", "exec::exec"},
@@ -319,3 +324,46 @@ def _loaders(F):
                     if len(src) == 1 and len(ps) == 1:
                         out[fn.path] = ps[0] - 1
     return out
+
+
+
+def hand_through_rule(ctx, rule):
+    F, rep = ctx.F, ctx.rep
+    BORROW = ("deref", "as_str", "as_ref", "borrow", "as_bytes", "read_to_string", "clone", "to_owned", "to_string", "into", "from")
+    lr = F.fn("cli::load_and_run_from_command_line")
+    if lr is None:
+        rep.fail(rule, "anchor::load_and_run", "cli::load_and_run_from_command_line not found")
+    else:
+        rep.analysed(lr)
+        n = 0
+        for body in F.with_closures(lr):
+            for bi, t in body.calls():
+                if callee_def(t) == "cli::run_from_command_line" and len(t["args"]) > 1:
+                    n += 1
+                    names = set()
+                    for d, p in kind_deep(body, t["args"][1]):
+                        if d[0] == "call":
+                            names.add(body.term(d[1])["callee"].get("name") or "?")
+                    bad = sorted(x for x in names if x not in BORROW)
+                    ok = not bad
+                    rep.ob(rule, "text-unchanged::load_and_run", ok, "" if ok else "the file's text goes through %s before it is run: the binary runs a different text from the one in FILE" % bad, body.loc(t["line"]),
+                           how="the read text is only borrowed")
+        if n == 0:
+            rep.fail(rule, "text-unchanged::load_and_run", "no call of run_from_command_line under load_and_run_from_command_line", lr.loc())
+    # diagnostics
+    n_acc = 0
+    for fn, bi, kind, st in common.field_accesses(F, "linter::LinterResult", "diags"):
+        if not fn.file.startswith("src/cli/"):
+            continue
+        n_acc += 1
+        ok = kind == "read"
+        rep.ob(rule, "diags-unchanged::%s::%s" % (common.top_fn(F, fn).path, kind), ok,
+               "" if ok else "%s takes LinterResult.diags mutably (%s): what is printed is no longer what the library reported" % (common.top_fn(F, fn).path, kind), fn.loc(st.get("line")), how="read only")
+    bo = F.fn("cli::linter::build_output")
+    if bo is not None:
+        rep.analysed(bo)
+        ALLOWED = ("into_iter", "iter", "map", "flatten", "flat_map", "chain", "collect", "is_empty", "len", "new", "one", "deref", "green", "normal", "bold", "yellow")
+        names = {t["callee"].get("name") for body in F.with_closures(bo) for bi, t in body.calls() if "indirect" not in t["callee"] and not t["callee"].get("local")}
+        bad = sorted(x for x in names if x in ("filter", "filter_map", "skip", "take", "rev", "dedup", "dedup_by", "dedup_by_key", "retain", "sort", "sort_by", "sort_by_key", "truncate", "step_by", "skip_while", "take_while", "unique", "last", "nth", "pop", "remove", "drain"))
+        rep.ob(rule, "diags-unchanged::build_output", not bad, "" if not bad else "build_output applies %s to the diagnostics: the binary prints fewer / other diagnostics than the library returns" % bad, bo.loc(), how="maps and flattens only")
+    rep.floor(rule, n_acc, 1, "accesses of LinterResult.diags under src/cli")
